@@ -82,6 +82,40 @@ func BcastStress(n int) StressResult {
 		}
 		cancel()
 	}
+	// many pending receivers whose owners free their keys as soon as they are woken, while Close walks the table
+	for i := 0; i < n/200+3 && res.Violates == ""; i++ {
+		b := utils.NewBroadcaster[int]()
+		const many = 192
+		var wg sync.WaitGroup
+		ready := make(chan struct{}, many)
+		for k := 0; k < many; k++ {
+			key := fmt.Sprintf("k%d", k)
+			rr, err := b.Receive(key, context.Background())
+			if err != nil {
+				res.Violates = fmt.Sprintf("mass round %d: Receive failed: %v", i, err)
+				break
+			}
+			wg.Add(1)
+			go func() {
+				defer wg.Done()
+				ready <- struct{}{}
+				rr()
+				b.Free(key, context.Canceled)
+			}()
+		}
+		for k := 0; k < many; k++ {
+			<-ready
+		}
+		b.Close(nil)
+		done := make(chan struct{})
+		go func() { wg.Wait(); close(done) }()
+		select {
+		case <-done:
+			res.Kinds["mass-close"]++
+		case <-time.After(3 * time.Second):
+			res.Violates = fmt.Sprintf("mass round %d: receivers still blocked 3 s after Close", i)
+		}
+	}
 	// a stale receive function (its key was freed) runs while a value for ANOTHER key is being handed
 	// over: it must return its own key's cancellation, never the other key's value
 	for i := 0; i < n && res.Violates == ""; i++ {
